@@ -27,6 +27,8 @@ func checkC15(c *Ctx) {
 	r153(c)
 	r154(c, "R15.4 failed-request-leaves-nothing-behind")
 	r155(c, "R15.5 late-failure-stays-visible")
+	// the target timeout (what turns a silent target into a 504) is a per-service setting that outlives the process
+	persistedFields(c, "R15.6 target-settings-survive-restart", "TargetOptions", nil)
 }
 
 func r151(c *Ctx) {
